@@ -2,7 +2,7 @@
    Every theorem holds for every environment (any finite sys.modules, any attribute trees), every
    entry point and every payload tree of any depth. *)
 From Coq Require Import List NArith Bool.
-From TQ Require Import LoadGate LoadGateProofs.
+From TQ Require Import LoadGate LoadGateProofs LoadGateMutants.
 Import ListNotations.
 Open Scope N_scope.
 
@@ -130,6 +130,13 @@ Theorem C20_check_sound : forall en e r res obs,
   end.
 Proof. exact check_sound. Qed.
 Print Assumptions C20_check_sound.
+
+(* sensitivity: the conversion with the gate as a parameter is the model when given the real gate; with each mutant
+   gate (nested skip, callable(), isinstance-only, gate after the call) LoadGateMutants.v exhibits a Call or a
+   non-exception Instantiate (its Examples named mutant_...), so the theorems above rest on line 378 as it stands *)
+Theorem C20_parametric_gate_is_model : forall e p top, convG (fun _ => gate_rejects) false top e p = conv e p.
+Proof. exact convG_real. Qed.
+Print Assumptions C20_parametric_gate_is_model.
 
 (* ------------------------------------------------------------------ non-vacuity *)
 (* sys.modules = { "m": module(f = function, E = exception class, H = class(i = exception class, g = function),
